@@ -727,7 +727,7 @@ func (di *dynInterp) eval(f *ssa.Function, v ssa.Value, ins ssa.Instruction, get
 			switch x.Op {
 			case token.ADD, token.SUB, token.MUL:
 				if a.c.Kind() != constant.Bool && a.c.Kind() != constant.String {
-					return aval{k: avConst, c: constant.BinaryOp(a.c, x.Op, b.c)}
+					return aval{k: avConst, c: wrapInt(constant.BinaryOp(a.c, x.Op, b.c), x.Type())}
 				}
 			case token.QUO, token.REM:
 				if a.c.Kind() == constant.Int && b.c.Kind() == constant.Int {
@@ -1471,3 +1471,40 @@ func init() {
 var kindPredProg *core.Prog
 var kindPredNA *nilAn
 var kindPredNAProg *core.Prog
+
+// wrapInt gives integer arithmetic its machine semantics: the result of an operation on a sized integer type is
+// reduced modulo 2^bits (unsigned) or wrapped in two's complement (signed) — `limit--` on a uint64 zero is
+// 2^64-1, not -1.
+func wrapInt(c constant.Value, t types.Type) constant.Value {
+	if c.Kind() != constant.Int {
+		return c
+	}
+	b, ok := t.Underlying().(*types.Basic)
+	if !ok || b.Info()&types.IsInteger == 0 {
+		return c
+	}
+	bits := uint(64)
+	switch b.Kind() {
+	case types.Int8, types.Uint8:
+		bits = 8
+	case types.Int16, types.Uint16:
+		bits = 16
+	case types.Int32, types.Uint32:
+		bits = 32
+	}
+	mod := constant.Shift(constant.MakeInt64(1), token.SHL, bits)
+	// r = c mod 2^bits, in [0, 2^bits)
+	q := constant.BinaryOp(c, token.QUO_ASSIGN, mod)
+	r := constant.BinaryOp(c, token.SUB, constant.BinaryOp(q, token.MUL, mod))
+	if constant.Sign(r) < 0 {
+		r = constant.BinaryOp(r, token.ADD, mod)
+	}
+	if b.Info()&types.IsUnsigned != 0 {
+		return r
+	}
+	half := constant.Shift(constant.MakeInt64(1), token.SHL, bits-1)
+	if constant.Compare(r, token.GEQ, half) {
+		r = constant.BinaryOp(r, token.SUB, mod)
+	}
+	return r
+}
